@@ -1033,6 +1033,18 @@ func runC18(r *Rng, tier string, n int) {
 		mkKey("rsa1.example.", dns.RSASHA1, 1024),
 		mkKey("rsa512.example.", dns.RSASHA512, 2048),
 	}
+	// the largest RSA size Generate offers (4096 bits: a modulus of exactly 512 octets), a fixed key
+	if rr, err := dns.NewRR(RSA4096Pub8); err == nil {
+		dk := rr.(*dns.DNSKEY)
+		k := &dns.KEY{DNSKEY: *dk}
+		k.Hdr.Rrtype = dns.TypeKEY
+		k.Flags = 0x0200
+		if p, err := k.NewPrivateKey(RSA4096Priv8); err == nil {
+			keys = append(keys, keyPair{k, p.(crypto.Signer), dns.AlgorithmToString[dns.RSASHA256]})
+		} else {
+			Viol("C18/key/rsa4096-not-loadable", "a 4096-bit RSA private key exported by the library cannot be read back: "+err.Error(), nil)
+		}
+	}
 	extra := []keyPair{mkKey("key.example.", dns.ED25519, 256), mkKey("key.example.", dns.ECDSAP256SHA256, 256)}
 
 	// (1) direct oracles: any content, size, compression setting
